@@ -9,6 +9,7 @@
 mod core;
 mod corrupt;
 mod dictops;
+mod hashseam;
 mod io;
 mod json;
 mod minimize;
@@ -71,6 +72,7 @@ fn isolate_output() -> std::fs::File {
 }
 
 fn main() {
+    hashseam::install();
     let args: Vec<String> = std::env::args().skip(1).collect();
     let mut prop = None;
     let mut tier = match std::env::var("VERIF_TIER").ok().as_deref() {
